@@ -330,7 +330,11 @@ func (m *caseMon) snapshot() snapshot {
 		if len(g.funcs) > 0 {
 			top = shortFunc(g.funcs[0])
 		}
-		s.lines = append(s.lines, fmt.Sprintf("g%d [%s] top=%s innermost-incremental=%s", g.id, g.state, top, inner))
+		var fs []string
+		for _, f := range g.funcs {
+			fs = append(fs, shortFunc(f))
+		}
+		s.lines = append(s.lines, fmt.Sprintf("g%d [%s] top=%s innermost-incremental=%s stack=%s", g.id, g.state, top, inner, strings.Join(fs, " < ")))
 		if inner != "" {
 			bl[inner] = true
 		}
